@@ -151,6 +151,9 @@ pub enum Event {
     Stream(u64),
     Clone(u64, u64),
     DropHandle(u64),
+    /// `THREADS n k`: n OS threads, each with its own clone of handle 0, each starting k identifier-taking
+    /// operations (first poll only). Not part of the model: scripts using it are judged by the oracle alone.
+    Threads(u64, u64),
 }
 
 // ---------------------------------------------------------------------------------------------
@@ -429,6 +432,10 @@ pub fn parse_event(line: &str) -> Option<Event> {
         },
         "DROPHANDLE" => match args {
             [handle] => Some(Event::DropHandle(parse_handle(handle)?)),
+            _ => None,
+        },
+        "THREADS" => match args {
+            [n, k] => Some(Event::Threads(parse_num(n)?, parse_num(k)?)),
             _ => None,
         },
         _ => None,
